@@ -359,6 +359,75 @@ fn log_tables(ctx: &Ctx) -> Vec<RCase> {
     v
 }
 
+/// Well-formed files at the upper end of the quantifier's size (1 MiB) made of as many distinct small records as fit:
+/// work that grows faster than the input (a scan per record, a copy per record) crosses the CPU budget here.
+fn scale(_: &Ctx) -> Vec<RCase> {
+    const MAX: usize = 1 << 20;
+    let b36 = |mut n: usize| {
+        let mut s = vec![];
+        loop {
+            s.push(b"0123456789abcdefghijklmnopqrstuvwxyz"[n % 36]);
+            n /= 36;
+            if n == 0 {
+                break;
+            }
+        }
+        s.reverse();
+        String::from_utf8(s).unwrap()
+    };
+    let fill = |rec: &dyn Fn(usize) -> String, head: &str, tail: &str| -> Vec<u8> {
+        let mut out = head.as_bytes().to_vec();
+        let mut i = 0;
+        loop {
+            let r = rec(i);
+            if out.len() + r.len() + tail.len() > MAX {
+                break;
+            }
+            out.extend_from_slice(r.as_bytes());
+            i += 1;
+        }
+        out.extend_from_slice(tail.as_bytes());
+        out
+    };
+    let mut v = vec![];
+    let mut push = |entry: &str, what: &str, bytes: Vec<u8>| {
+        let mut c = RCase::explicit(entry, "scale", vec![bytes]);
+        c.note = format!("scale: {}", what);
+        v.push(c);
+    };
+    push("cfg", "1 MiB of distinct empty categories", fill(&|i| format!("<{}>\r\n", b36(i)), "", ""));
+    push("cfg", "1 MiB of distinct categories with one key each", fill(&|i| format!("<{}>\r\n{}\t{}\r\n\r\n", b36(i), b36(i), i % 7), "", ""));
+    push("cfg", "1 MiB of distinct keys in one category", fill(&|i| format!("{}\t1\r\n", b36(i)), "<A>\r\n", ""));
+    push("cfg", "1 MiB of one repeated category and key", fill(&|_| "<A>\r\nLanguage\t1\r\n".to_string(), "", ""));
+    push("exl", "1 MiB of distinct rows", fill(&|i| format!("{},{}\n", b36(i), i), "EXLT,2\n", ""));
+    push("exl", "1 MiB of the same row", fill(&|_| "Achievement,1\n".to_string(), "EXLT,2\n", ""));
+    let head = "--477D80B1_38BC_41d4_8B48_5273ADB89CAC\r\nContent-Type: application/octet-stream\r\nContent-Location: ffxivpatch/2b5cbc63/metainfo/D2013.06.18.0000.0000.http\r\nX-Patch-Length: 19458977\r\n\r\n";
+    let tail = "--477D80B1_38BC_41d4_8B48_5273ADB89CAC--\r\n";
+    push("patchlist-boot", "1 MiB of boot entries", fill(&|i| format!("{}\t{}\t71\t11\t2023.09.15.0000.{:04}\thttp://patch-dl.ffxiv.com/boot/2b5cbc63/D{}.patch\r\n", 1000 + i, 2000 + i, i % 10000, b36(i)), head, tail));
+    push("patchlist-game", "1 MiB of game entries with many hashes", fill(&|i| format!("{}\t{}\t71\t11\t2023.09.15.0000.{:04}\tsha1\t50000000\t{}\thttp://patch-dl.ffxiv.com/game/4e9a232b/D{}.patch\r\n", 1000 + i, 2000 + i, i % 10000, vec!["1c66becde2a8cf26a99d0fc7c06f15f8bab2d87c"; 1 + i % 5].join(","), b36(i)), head, tail));
+    push("patchlist-game", "one game entry with 1 MiB of hashes", {
+        let n = (MAX - 400) / 41;
+        format!("{}1\t2\t71\t11\t2023.09.15.0000.0000\tsha1\t50000000\t{}\thttp://patch-dl.ffxiv.com/game/4e9a232b/D.patch\r\n{}", head, vec!["1c66becde2a8cf26a99d0fc7c06f15f8bab2d87c"; n].join(","), tail).into_bytes()
+    });
+    // file-info table with as many records as fit
+    {
+        let n = (MAX - 1024) / 96;
+        let mut w = crate::build::W::new();
+        w.bytes(b"FileInfo").zeros(16).i32(1024).i32((96 * n) as i32);
+        w.pad_to(1024);
+        for i in 0..n {
+            let name = format!("file{}.bin", b36(i));
+            w.i32(i as i32).zeros(4);
+            let mut nm = name.into_bytes();
+            nm.resize(64, 0);
+            w.bytes(&nm);
+            w.fill(20, (i % 251) as u8).zeros(4);
+        }
+        push("fiin", "1 MiB of records", w.b);
+    }
+    v
+}
+
 fn seeds_as_they_are(_: &Ctx) -> Vec<RCase> {
     seed_cases(registry())
 }
@@ -463,6 +532,14 @@ fn io_faults(_: &Ctx) -> Vec<RCase> {
         c.note = "io:write-fault: AddFile whose write crosses the file-size limit (EFBIG)".into();
         v.push(c);
     }
+    // MakeDirTree whose directory cannot be made: a regular file sits where the directory has to go (the command does
+    // nothing else, so nothing later would notice), or at an inner component of the path
+    for (blocked, what) in [("boot/tree", "a regular file sits at the directory's own path"), ("boot", "a regular file sits at an inner component")] {
+        let mk = zp::file_op(b'M', 0, 0, 0, "boot/tree/leaf", &[]);
+        let mut c = RCase::explicit("zipatch", "io:unwritable-target", vec![head(vec![mk]), pack_files(&[(blocked.to_string(), b"file".to_vec())]), vec![0]]).expect_err();
+        c.note = format!("io:unwritable-target: MakeDirTree boot/tree/leaf where {}", what);
+        v.push(c);
+    }
     // commands before target info
     for (name, cmd) in &cmds {
         let mut b = zp::file_header();
@@ -536,7 +613,7 @@ fn post(_: &Ctx) {
 pub fn property() -> Property {
     Property {
         id: "C17",
-        rule: "cases = (entry point, valid seed file, corruption) executed in an isolated worker process. Entry points: ConfigFile, EXL, FileInfo (from_existing and new), CharacterData, GearSets, ChatLog, PatchList (boot and game) from_string+to_string, ZiPatch::apply on a scratch tree, extract_frontier_url, BootData (+apply_patch), Blowfish on arbitrary data; values that parse are also written back / queried. Seeds: repository fixtures, output of the C03/C08/C09/C10 generators for fixed internal seeds, hand-built chat logs and launcher executables. Corruptions: every truncation point; every offset x width {1,2,4,8} x value {0, 1, 0x7F.., 0x80.., 0xFF.., +1, -1} x byte order; random compositions of truncate/field/bit-flip/byte/insert (incl. invalid UTF-8, NUL, line structure)/remove/duplicate/copy-range/append; random blobs up to 1 MiB behind intact magic; text formats with characters whose case mapping changes their UTF-8 length at every line start, and at the start of the text combined with every truncation / a two-byte character at every offset; chat logs of 16 / 1000 / 20 000 (90 000 thorough) entries with sorted, descending, zig-zag, constant, swapped and shuffled offset tables; I/O fault recipes (missing path, path of the wrong kind, unwritable targets for every patch command, commands before target info, patch streams ending early). Oracle: worker outcome must be value or ordinary failure -- no panic, abort, stack overflow, more than 10 s CPU, or live heap above max(64 MiB, 256 x input); a patch stream without its end-of-file chunk, with an unwritable target, or with a deflated AddFile block whose stream an independent inflater (miniz_oxide) cannot decode within the declared size (every stream byte of every deflated block of the seed patches xor 0x01 / 0x20 / 0xFF) must return Err. Non-trivial: input differs from the seed, is non-empty and keeps the seed's magic; distinct by hash of (entry, arguments).",
+        rule: "cases = (entry point, valid seed file, corruption) executed in an isolated worker process. Entry points: ConfigFile, EXL, FileInfo (from_existing and new), CharacterData, GearSets, ChatLog, PatchList (boot and game) from_string+to_string, ZiPatch::apply on a scratch tree, extract_frontier_url, BootData (+apply_patch), Blowfish on arbitrary data; values that parse are also written back / queried. Seeds: repository fixtures, output of the C03/C08/C09/C10 generators for fixed internal seeds, hand-built chat logs and launcher executables. Corruptions: every truncation point; every offset x width {1,2,4,8} x value {0, 1, 0x7F.., 0x80.., 0xFF.., +1, -1} x byte order; random compositions of truncate/field/bit-flip/byte/insert (incl. invalid UTF-8, NUL, line structure)/remove/duplicate/copy-range/append; random blobs up to 1 MiB behind intact magic; text formats with characters whose case mapping changes their UTF-8 length at every line start, and at the start of the text combined with every truncation / a two-byte character at every offset; well-formed 1 MiB files made of as many distinct small records as fit (cfg categories / keys, exl rows, patch-list entries and hashes, file-info records) against the CPU budget; chat logs of 16 / 1000 / 20 000 (90 000 thorough) entries with sorted, descending, zig-zag, constant, swapped and shuffled offset tables; I/O fault recipes (missing path, path of the wrong kind, unwritable targets for every patch command, commands before target info, patch streams ending early). Oracle: worker outcome must be value or ordinary failure -- no panic, abort, stack overflow, more than 10 s CPU, or live heap above max(64 MiB, 256 x input); a patch stream without its end-of-file chunk, with an unwritable target, or with a deflated AddFile block whose stream an independent inflater (miniz_oxide) cannot decode within the declared size (every stream byte of every deflated block of the seed patches xor 0x01 / 0x20 / 0xFF) must return Err. Non-trivial: input differs from the seed, is non-empty and keeps the seed's magic; distinct by hash of (entry, arguments).",
         assumptions: &["Blowfish keys are 8..56 bytes (caller-chosen, not untrusted input; the key schedule reads the first 8 bytes)", "PatchList::from_string takes &str: arbitrary bytes are converted lossily to text first", "files a case writes are capped at 16 MiB by RLIMIT_FSIZE (reported to the library as an I/O error)", "wall-clock time is not judged; the CPU budget is 10 s per case"],
         pre: Some(pre),
         parts: vec![
@@ -544,6 +621,7 @@ pub fn property() -> Property {
             Box::new(Part { name: "io-faults", driver: Driver::Enum(io_faults), prop, exhaustive: true }),
             Box::new(Part { name: "leak-probes", driver: Driver::Enum(leak_probes), prop, exhaustive: false }),
             Box::new(Part { name: "damaged-blocks", driver: Driver::Enum(damaged_blocks), prop, exhaustive: true }),
+            Box::new(Part { name: "scale", driver: Driver::Enum(scale), prop, exhaustive: true }),
             Box::new(Part { name: "log-tables", driver: Driver::Enum(log_tables), prop, exhaustive: true }),
             Box::new(Part { name: "case-mapping", driver: Driver::Enum(case_mapping), prop, exhaustive: true }),
             Box::new(Part { name: "text-fields", driver: Driver::Enum(text_fields), prop, exhaustive: true }),
